@@ -204,12 +204,13 @@ def exhaustive16(runmod, prop, group, tier, seed, st, jobs):
             chunks = [(a, a + 512) for a in range(0, span, 512)]
         else:
             # 8 slices of 64 first operands: the ends of the range plus random positions
-            starts = [0, span - 64, span // 2 - 32, span // 2] + [rng.randrange(0, span - 64) for _ in range(4)]
-            chunks = [(a, a + 64) for a in starts]
+            w = max(8, int(64 * getattr(prop, 'EXH_SCALE', 1)))   # slower operations (gcd) get narrower slices
+            starts = [0, span - w, span // 2 - w // 2, span // 2] + [rng.randrange(0, span - w) for _ in range(4)]
+            chunks = [(a, a + w) for a in starts]
         for lo, hi in chunks:
             tasks.append({'bin': paths['exh'], 'cfg': cname, 'line': '%s %s d%d d%d' % (cname, prop.BIN, lo, hi)})
     # bulk mode: structured pseudo-random operand pairs on every digit-type representation of the 32/64/128-bit widths
-    nbulk, per = (1, 2000000) if tier != 'thorough' else (48, 4000000)
+    nbulk, per = (1, int(2000000 * getattr(prop, 'EXH_SCALE', 1))) if tier != 'thorough' else (48, 4000000)
     bulk_cfgs = ['u8x4', 'u16x2', 'u32x1', 'u8x8', 'u16x4', 'u32x2', 'u64x1', 'u8x16', 'u16x8', 'u32x4', 'u64x2']
     bulk_cfgs += ['i' + c[1:] for c in bulk_cfgs]
     for cname in bulk_cfgs:
